@@ -163,6 +163,9 @@ func (h *probeHandler) Handle(resp tq.Response, req tq.Request) {
 			}
 		}
 	}
+	if why := pc.recv.Packet(req.Header, req.Body); why != "" {
+		pc.w.Rec(world.Ev{Actor: "conn", Kind: "receiver-reuse-differs", Conn: pc.conn, A: int64(idx), S: why})
+	}
 	if why := pc.recv.Header(req.Header); why != "" {
 		pc.w.Rec(world.Ev{Actor: "conn", Kind: "receiver-reuse-differs", Conn: pc.conn, A: int64(idx), S: why})
 	}
